@@ -61,8 +61,9 @@ type c20Obs struct {
 }
 
 // kind table: id -> (kind name, category id); categories: 0 system 1 business 2 pipeline 3 traffic gate
-var c20KindName = map[int]string{0: "C20CtlA", 1: "C20CtlB", 2: "C20GateA", 3: "C20GateB", 4: "C20Pipe", 5: "C20Sys", 9: "Pipeline"}
-var c20KindCat = map[int]int{0: 1, 1: 1, 2: 3, 3: 3, 4: 2, 5: 0, 9: 2}
+// 7 is a kind this binary does not know: such an entry cannot be turned into an entity
+var c20KindName = map[int]string{0: "C20CtlA", 1: "C20CtlB", 2: "C20GateA", 3: "C20GateB", 4: "C20Pipe", 5: "C20Sys", 7: "C20NoSuchKind", 9: "Pipeline"}
+var c20KindCat = map[int]int{0: 1, 1: 1, 2: 3, 3: 3, 4: 2, 5: 0, 7: 4, 9: 2}
 var c20KindID = map[string]int{}
 
 func c20KindTable() [][2]int {
@@ -1123,6 +1124,8 @@ var c20TrafficKinds = []int{2, 3, 4, 9}
 func c20PickKind(r *vfRand, cats int) int {
 	// cats: 0 business only, 1 business + traffic, 2 everything (incl. unwatched system category)
 	switch {
+	case r.Chance(1, 14): // an entry applyConfig cannot decode, next to ordinary changes
+		return 7
 	case cats == 0 || r.Chance(6, 10):
 		return c20BizKinds[r.Intn(2)]
 	case cats == 2 && r.Chance(1, 6):
